@@ -38,9 +38,13 @@ func c12Ops() []histOp {
 		{"write-signed-zeros", "P.z = 0; Q.z = 0; P.z = -0; " + Print("P.z") + " R.nz = -0; R.nz = 0; " + Print("R.nz"), false},
 		{"write-equal-looking-values", "P.e = 1; P.e = " + True() + "; Q.e2 = \"1\"; Q.e2 = 1; R.e3 = nil; R.e3 = " + False() + "; R.e4 = \"\"; R.e4 = 0;", false},
 		{"listing-element-identity", "P.ch = {n: %f}; T = " + BI("values", "{only: P.ch}") + "; T[0].n = %f; " + Print("P.ch.n") + " " + Print("T[0] == P.ch") + " T = nil;", false},
+		// names differing in letter case or digit script are different names; listings stay mutually consistent for them
+		{"literal-mixed-case-keys", "R = {age: %f, Zip: %f, City: %f, name: %f};", false}, {"write-mixed-case-keys", "P.Zip = %f; P.apple = %f; Q.Total = %f; Q.count = %f; Q.total = %f;", false},
+		{"literal-digit-script-keys", "Q = {k\u09e7: %f, k1: %f, \u09ae\u09be\u09a8\u09e8: %f}; " + Print("Q.k1 - Q.k\u09e7"), false},
+		{"delete-digit-script-key", "P.\u09ae\u09be\u09a8\u09e7 = %f; P.\u09ae\u09be\u09a81 = %f; " + del("P", "\"\u09ae\u09be\u09a8\u09e7\"") + " " + Print("P.\u09ae\u09be\u09a81"), false},
 		{"read-after-write", "P.k = %f; " + Print("P.k"), false}, {"read-nested", "Q.sub2 = {d: %f}; " + Print("Q.sub2.d"), false},
 		// faulting steps
-		{"read-absent", Print("P.absent"), true}, {"read-on-nil", Print("T.k"), true}, {"read-on-array", Print("arr.k"), true}, {"read-on-number", Print("(5).k"), true}, {"read-on-string", Print(`"s".k`), true},
+		{"read-absent", Print("P.absent"), true}, {"read-other-digit-script", "P.\u0995\u09e8 = %f; " + Print("P.\u09952"), true}, {"read-other-case", "P.Name = %f; " + Print("P.name"), true}, {"read-on-nil", Print("T.k"), true}, {"read-on-array", Print("arr.k"), true}, {"read-on-number", Print("(5).k"), true}, {"read-on-string", Print(`"s".k`), true},
 		{"write-on-nil", "T.k = %f;", true}, {"write-on-array", "arr.k = %f;", true},
 		{"delete-absent", del("P", `"absent"`), true}, {"delete-twice", "P.dd = %f; " + del("P", `"dd"`) + " " + del("P", `"dd"`), true},
 		{"delete-nonstring-key", del("P", "5"), true}, {"delete-nil-key", del("P", "nil"), true}, {"delete-on-array", del("arr", `"k"`), true},
@@ -114,7 +118,7 @@ func c12Run(c *Ctx) {
 func init() {
 	register(&CheckDef{
 		ID:   "C12",
-		Rule: "histories over three object variables with shared ancestry (aliases, an array and an outer object holding them, parameter-writing and parameter-deleting functions) and the key pool {k, ক, x1, মান, ...}: 29 non-faulting step kinds (alias, literals with 0/2/3/6 keys and nested, write new / existing / nil-valued / object-valued property directly, through a parameter, an array element, an outer object; write-then-delete directly, through a parameter, with a computed key, of a nil-valued property; reads) and 14 faulting step kinds (read absent, . on nil/array/number/string, write on non-object, delete absent / twice / non-string key / non-object, listings of non-objects); every history of <=2 steps, every 7th of <=3 (quick) / all of <=4 (thorough), each also ended by every faulting step; random histories of 4-34 steps. After every step every live object is printed together with its key list and value list, each listing twice in a row; every program is executed 3 times (hash-iteration order is the schedule). Listings may come in any order but all listings of one unmodified object must agree position-wise (keys with values). Compared with refborno's pure map model. Non-trivial = distinct decided history.",
+		Rule: "histories over three object variables with shared ancestry (aliases, an array and an outer object holding them, parameter-writing and parameter-deleting functions) and the key pool {k, ক, x1, মান, ...}: 33 non-faulting step kinds (alias, literals with 0/2/3/6 keys and nested, write new / existing / nil-valued / object-valued property directly, through a parameter, an array element, an outer object; write-then-delete directly, through a parameter, with a computed key, of a nil-valued property; reads) (incl. names differing only in letter case or digit script) and 16 faulting step kinds (read absent, . on nil/array/number/string, write on non-object, delete absent / twice / non-string key / non-object, listings of non-objects); every history of <=2 steps, every 7th of <=3 (quick) / all of <=4 (thorough), each also ended by every faulting step; random histories of 4-34 steps. After every step every live object is printed together with its key list and value list, each listing twice in a row; every program is executed 3 times (hash-iteration order is the schedule). Listings may come in any order but all listings of one unmodified object must agree position-wise (keys with values). Compared with refborno's pure map model. Non-trivial = distinct decided history.",
 		Assumptions: []string{"the order of a key/value listing is not pinned, only its consistency; what কি_রিমুভ returns is not pinned"},
 		Run:         c12Run,
 		Judge:       c12Judge,
